@@ -32,6 +32,13 @@ def set_digest(r):
     return digest(sorted(json.dumps(x, sort_keys=True, default=str) for x in r[1]))
 
 
+def elem_digests(r):
+    """Digest of every element of an ok result (to tell 'fewer results' from 'other results')."""
+    if r[0] != 'ok':
+        return []
+    return sorted(set(digest(json.dumps(x, sort_keys=True, default=str)) for x in r[1]))[:60]
+
+
 def run_query(s, m, line, col):
     try:
         if m == 'get_names':
@@ -76,12 +83,12 @@ def main():
             for (m, line, col) in job['queries']:
                 s = jedi.Script(src, path=path, project=proj, environment=env)
                 r = run_query(s, m, line, col)
-                res.append([digest(r), r[0], set_digest(r)])
+                res.append([digest(r), r[0], set_digest(r), elem_digests(r)])
         else:                                 # all queries, in this order, on ONE Script
             s = jedi.Script(src, path=path, project=proj, environment=env)
             for (m, line, col) in job['queries']:
                 r = run_query(s, m, line, col)
-                res.append([digest(r), r[0], set_digest(r)])
+                res.append([digest(r), r[0], set_digest(r), elem_digests(r)])
         out.append(res)
     json.dump(out, open(sys.argv[2], 'w'))
 
